@@ -117,7 +117,12 @@ def commands_keep_the_state_queryable(c, now, op, arg):
         assert p == before and c._travel_to_position == arg
         assert not overshot(c) or before == arg
     elif op in ("update_position", "set_position"):
-        assert c._last_known_position == arg
+        # a report (also one that repeats the stored position) restarts the segment: the estimate continues from
+        # the reported position *at the time of the report* - 'reaches the target exactly when the travel time
+        # [from there] has elapsed' is current_position_is_bounded_and_total applied to this new segment
+        assert c._last_known_position == arg and c._last_known_position_timestamp == now
+    if op == "start_travel":
+        assert c._last_known_position_timestamp == now
     # the state invariant the other lemmas assume is re-established (induction over command histories)
     assert c._last_known_position is None or (isinstance(c._last_known_position, int) and 0 <= c._last_known_position <= 100)
     assert c._travel_to_position is None or (isinstance(c._travel_to_position, int) and 0 <= c._travel_to_position <= 100)
